@@ -1,0 +1,45 @@
+//go:build verif
+
+package packet
+
+import "bytes"
+
+// Verification hooks (see /verif, property C12). Not compiled without the "verif" build tag.
+
+// VerifCurveOIDs returns the curve OID byte strings the key parser compares against.
+func VerifCurveOIDs() map[string][]byte {
+	return map[string][]byte{
+		"P-256":   append([]byte{}, oidCurveP256...),
+		"P-384":   append([]byte{}, oidCurveP384...),
+		"P-521":   append([]byte{}, oidCurveP521...),
+		"Ed25519": append([]byte{}, oidEd25519...),
+		"X25519":  append([]byte{}, oidX25519...),
+	}
+}
+
+// VerifMaxOIDLength returns the largest curve OID length the parser accepts.
+func VerifMaxOIDLength() int { return maxOIDLength }
+
+// VerifMPI reads one MPI from b with the package's reader and returns its content octets,
+// the declared bit length, the number of input octets consumed and whether it succeeded.
+func VerifMPI(b []byte) (content []byte, bitLength uint16, consumed int, ok bool) {
+	r := bytes.NewReader(b)
+	content, bitLength, err := readMPI(r)
+	return content, bitLength, len(b) - r.Len(), err == nil
+}
+
+// VerifWriteMPI serialises an MPI with the package's writer.
+func VerifWriteMPI(bitLength uint16, content []byte) []byte {
+	var w bytes.Buffer
+	writeMPI(&w, bitLength, content)
+	return w.Bytes()
+}
+
+// VerifKeyHashInput returns the octets the package feeds to a hash for this key
+// (signature prefix followed by the re-serialised key body).
+func VerifKeyHashInput(pk *PublicKey) []byte {
+	var w bytes.Buffer
+	pk.SerializeSignaturePrefix(&w)
+	pk.serializeWithoutHeaders(&w)
+	return w.Bytes()
+}
